@@ -89,7 +89,7 @@ func main() {
 			stale = append(stale, fmt.Sprintf("stale-contract: %s (%s:%d) names no function in the tree", shortKey(k), fc.File, fc.Line))
 			continue
 		}
-		if *prop != "all" && !hasProp(fc, *prop) {
+		if *prop != "all" && !hasProp(fc, *prop) && !e.releasesTaggedLock(k, *prop) {
 			continue
 		}
 		if *only != "" && !strings.Contains(k, *only) {
@@ -154,7 +154,7 @@ func main() {
 		var work []string
 		for _, k := range keys {
 			for sp := range safetyClosureProps {
-				if hasProp(e.cs.Funcs[k], sp) && !safetyReach[k] {
+				if (hasProp(e.cs.Funcs[k], sp) || e.releasesTaggedLock(k, sp)) && !safetyReach[k] {
 					safetyReach[k] = true
 					work = append(work, k)
 				}
@@ -445,6 +445,36 @@ func isSafetyKind(kind string) bool {
 	base := strings.SplitN(kind, ":", 2)[0]
 	base = strings.SplitN(base, "#", 2)[0]
 	return safetyKinds[base]
+}
+
+// releasesTaggedLock: the function acquires (and so releases) its receiver's lock, and a lock invariant of that lock
+// is tagged with property p: the invariant must hold at each of its unlocks, so the function takes part in p even if
+// its own contract does not say so.
+func (e *Engine) releasesTaggedLock(key, p string) bool {
+	fi := e.funcs[key]
+	if fi == nil {
+		return false
+	}
+	fld := e.acquiresRecvLock(fi)
+	if fld == "" {
+		return false
+	}
+	sig := fi.Obj.Type().(*types.Signature)
+	n := namedOf(sig.Recv().Type())
+	if n == nil {
+		return false
+	}
+	for _, li := range e.cs.Locks {
+		if strings.TrimPrefix(li.RecvType, "*") != n.Obj().Name() || li.PkgPath != fi.Pkg.PkgPath || li.Mutex != fld {
+			continue
+		}
+		for _, c := range li.Inv {
+			if contains(c.Props, p) {
+				return true
+			}
+		}
+	}
+	return false
 }
 
 func hasProp(fc *FuncContract, p string) bool {
